@@ -44,6 +44,9 @@ type Conn struct {
 	in          chan *Line
 	out         chan string
 	connected   bool
+	// Guards connected, so that Connected() never has to wait for conn.mu
+	// (which Close holds until all the connection's goroutines have exited).
+	connectedMu sync.RWMutex
 
 	// Capabilities supported by the server
 	supportedCaps *capSet
@@ -248,9 +251,16 @@ func Client(cfg *Config) *Conn {
 // an IRC server. It becomes true when the TCP connection is established,
 // and false again when the connection is closed.
 func (conn *Conn) Connected() bool {
-	conn.mu.RLock()
-	defer conn.mu.RUnlock()
+	conn.connectedMu.RLock()
+	defer conn.connectedMu.RUnlock()
 	return conn.connected
+}
+
+// setConnected updates the connected flag. Callers hold conn.mu.
+func (conn *Conn) setConnected(c bool) {
+	conn.connectedMu.Lock()
+	conn.connected = c
+	conn.connectedMu.Unlock()
 }
 
 // Config returns a pointer to the Config struct used by the client.
@@ -430,7 +440,7 @@ func (conn *Conn) internalConnect(ctx context.Context) error {
 	}
 
 	conn.postConnect(ctx, true)
-	conn.connected = true
+	conn.setConnected(true)
 	return nil
 }
 
@@ -638,7 +648,7 @@ func (conn *Conn) closeIf(rw *bufio.ReadWriter) error {
 		return nil
 	}
 	logging.Info("irc.Close(): Disconnected from server.")
-	conn.connected = false
+	conn.setConnected(false)
 	err := conn.sock.Close()
 	if conn.die != nil {
 		conn.die()
